@@ -434,7 +434,83 @@ class ProdAlongAxis(Contract):
             yield Case(f"axis={ax}", make_env, check, loops=self._loops())
 
     def apply(self, ex, args, kw, node):
-        raise U("_prod as a callee", node)
+        """_prod(a, axis=k) at a call site, k a literal 0 or 1: the postcondition proved above"""
+        from engine.polymodel import take_index, drop_axis, extent, imap
+        from engine.logic import ndim, PV, unfold_at
+        b = dict(zip(self.positional, args))
+        b.update(kw)
+        A, ax = b.get("a"), b.get("axis")
+        if not isinstance(A, Poly) or not (isinstance(ax, int) and not isinstance(ax, bool) and ax in (0, 1)) or set(b) != {"a", "axis"}:
+            raise U("_prod at a call site in this form", node)
+        ctx = ex.ctx
+        site = ex.site("_prod")
+        S = A.shape
+        ex.oblige(f"pre({site}).axis_exists", ndim(S) > ax, "precondition", node)
+        ex.oblige(f"pre({site}).at_least_one_slice", extent(S, ax) >= 1, "precondition", node,
+                  note="the product starts from slice 0 of the axis")
+        S1 = drop_axis(S, ax)
+        PP = ctx.func("PP", I, Idx, PV)
+        k, j = z3.Int(ctx.fresh("k")), z3.Const(ctx.fresh("j"), Idx)
+        sl = lambda k, j: A.val(imap(j, S, take_index(z3.IntVal(ax), k)))
+        ctx.assume(z3.ForAll([j], PP(1, j) == sl(0, j)))
+        ctx.assume(z3.ForAll([k, j], z3.Implies(k >= 1, PP(k + 1, j) == pmul(PP(k, j), sl(k, j))),
+                             patterns=[z3.MultiPattern(PP(k + 1, j), unfold_at(k))]))
+        r = Poly(ctx, ctx.fresh("prod"), shape=S1, region=Region("fresh", "_prod"))
+        r.owndata = z3.BoolVal(True)
+        ctx.assume(r.wf(ctx))
+        ctx.assume(ctx.forall_range(0, r.N, lambda t: keyok(r.row(t), r.D)))
+        ctx.assume(ctx.forall_idx(lambda j: r.val(j) == PP(extent(S, ax), j), S1))
+        r.prod_along = (A, ax, PP)
+        return r
 
 
-CONTRACTS = [CMultiply(), Multiply(), Square(), PowerScalar(), ProdAlongAxis()]
+class ProdWrapper(Contract):
+    """numpoly.prod(a, axis, dtype, out, keepdims): for a literal axis 0 or 1 the result is _prod(a, axis) of the operand itself
+    (for keepdims=True and axis 0: that, with the axis put back as an extent-1 axis); out must be None."""
+    name, func, relpath, properties = "numpoly.prod", "prod", "numpoly/array_function/prod.py", ("C10", "C05")
+    positional = ("a", "axis", "dtype", "out", "keepdims")
+    assumptions = ("axis given as a literal 0 or 1 (axis=None, negative axes and tuples of axes: bounded check); contract of _prod (proved)",
+                   "B11: the product of the entries q_d ** e_d of `indeterminants ** row` along axis 0 is the monomial with that exponent "
+                   "row (definition of pmono; used by the division loop)")
+
+    def cases(self):
+        for ax, kd in ((0, False), (1, False), (0, True)):
+            def make_env(ex, ax=ax, kd=kd):
+                from engine.polymodel import extent, index_axioms
+                from engine.logic import ndim
+                ctx = ex.ctx
+                ps = sym_polys(ex, 1)
+                for a_ in index_axioms(ctx):
+                    ctx.assume(a_)
+                A = ps[0]
+                ex.inputs = ps
+                ctx.assume(z3.And(ndim(A.shape) > ax, extent(A.shape, ax) >= 1))
+                return {"a": A, "axis": ax, "dtype": None, "out": None, "keepdims": kd, "kwargs": {}}
+
+            def check(out, ax=ax, kd=kd):
+                from engine.polymodel import index_newaxis
+                ex, ctx = out.ex, out.ctx
+                A = ex.inputs[0]
+                ex.oblige(f"raises.nothing[{out.exc}:{out.value}]" if out.kind == "raise" else "raises.nothing", z3.BoolVal(out.kind == "return"), "post")
+                if out.kind != "return":
+                    return
+                r = out.value
+                core = r
+                if kd:
+                    io = getattr(r, "item_of", None)
+                    okk = io is not None and z3.eq(io[1].term, index_newaxis)
+                    ex.oblige("post.keepdims_puts_the_axis_back", z3.BoolVal(bool(okk)), "post")
+                    if not okk:
+                        return
+                    core = io[0]
+                pa = getattr(core, "prod_along", None)
+                ex.oblige("post.product_along_the_given_axis_of_the_operand", z3.BoolVal(pa is not None and pa[0] is A and pa[1] == ax), "post",
+                          note="one application of _prod, on the operand itself, along exactly the requested axis")
+            yield Case(f"axis={ax},keepdims={kd}", make_env, check)
+
+    def apply(self, ex, args, kw, node):
+        from contracts.division import Prod
+        return Prod().apply(ex, args, kw, node)
+
+
+CONTRACTS = [CMultiply(), Multiply(), Square(), PowerScalar(), ProdAlongAxis(), ProdWrapper()]
